@@ -186,8 +186,6 @@ def impl_run(t):
         o = py_eval(t)
     except TypeError:
         return "err:TypeError", None
-    except (ValueError, OverflowError, KeyError, IndexError, AttributeError) as e:
-        return "err:" + type(e).__name__, None
     except Exception as e:  # the module raises bare `Exception`
         return "err:Exception" if type(e) is Exception else "err:" + type(e).__name__, None
     return obj_out(o), o
@@ -328,16 +326,17 @@ def gen_bad(rng, nv, depth):
 
 
 def gen_tree(rng, max_depth):
-    nv = rng.choice([1, 2, 2, 3, 3, 4, 6])
+    """(tree, well-formed?) — a well-formed tree only uses operand combinations the classes support"""
+    nv = rng.choice([1, 2, 2, 3, 3, 3, 4, 4, 5, 6])
     depth = rng.randint(1, max_depth)
     r = rng.random()
     if r < 0.04:
-        return gen_bad(rng, nv, depth)
+        return gen_bad(rng, nv, depth), False
     if r < 0.45:
-        return gen_expr(rng, nv, depth)
+        return gen_expr(rng, nv, depth), True
     if r < 0.55:
-        return gen_term(rng, nv, depth)
-    return gen_ineq(rng, nv, depth)
+        return gen_term(rng, nv, depth), True
+    return gen_ineq(rng, nv, depth), True
 
 
 def exhaustive_trees():
@@ -360,9 +359,11 @@ def exhaustive_trees():
 
 
 # ------------------------------------------------------------------ driver
-def one(ctx: Ctx, t, reqs, todo, stream="tree") -> None:
-    inp = {"tree": t}
+def one(ctx: Ctx, t, reqs, todo, stream="tree", wellformed=True) -> None:
+    inp = {"tree": t, "wellformed": wellformed}
     impl, obj = impl_run(t)
+    if impl.startswith("err") and (wellformed or impl not in ("err:TypeError", "err:Exception")):
+        ctx.spec_fail("operation-raised", inp, {"raised": impl}, size=size(t))
     reqs.append("P tree " + tokens(t))
     todo.append((inp, impl, size(t)))
     if obj is not None:
@@ -390,13 +391,14 @@ def run(ctx: Ctx) -> None:
         "Expr objects are built through the operators (or Expr(c, t) with t[k].L.v == k), never by mutating .t directly",
     ]
     reqs, todo = [], []
-    n = ctx.n(3000, 100000)
+    n = ctx.n(8000, 300000)
     md = 4 if ctx.tier == "quick" else 6
     for t in getattr(ctx, "seed_inputs", []) or []:
         if isinstance(t, dict) and "tree" in t:
-            one(ctx, t["tree"], reqs, todo, "seed")
+            one(ctx, t["tree"], reqs, todo, "seed", t.get("wellformed", True))
     for _ in range(n):
-        one(ctx, gen_tree(ctx.rng, md), reqs, todo)
+        t, wf = gen_tree(ctx.rng, md)
+        one(ctx, t, reqs, todo, "tree", wf)
     if ctx.tier == "thorough" and ctx.budget <= 1.0:
         cnt = 0
         for t in exhaustive_trees():
@@ -412,7 +414,7 @@ def run(ctx: Ctx) -> None:
 
 def replay(ctx: Ctx, body: dict) -> None:
     reqs, todo = [], []
-    one(ctx, body["input"]["tree"], reqs, todo)
+    one(ctx, body["input"]["tree"], reqs, todo, "tree", body["input"].get("wellformed", True))
     replies = ctx.model(reqs)
     if replies:
         compare(ctx, todo, replies)
